@@ -11,7 +11,7 @@ def run(tier, seed, replay):
     v = vlib.Verdict("C01", tier, seed)
     vlib.build_harness()
     vlib.gen_rom()
-    suites = ["shapes1", "shapes2", "addr", "alusame"] + (["unary", "alu"] if tier == "thorough" else [])
+    suites = ["shapes1", "shapes2", "addr", "alusame", "alupairs"] + (["unary", "alu"] if tier == "thorough" else [])
     states = trans = 0
     per_suite = {}
     for s in suites:
@@ -27,6 +27,23 @@ def run(tier, seed, replay):
             seen.add(key)
             v.violation(key, "Micro(Rom of the tree) does not refine Isa.tla for instruction bytes %s at PC=%s: micro state %s / ISA state %s, differing fields %s"
                         % (m.get("bytes"), m.get("pc"), m.get("micro_state"), m.get("isa_state"), m.get("diff")), m)
+    # instruction SEQUENCES on the specification: random images, refinement + cost at every boundary, key interrupts in between
+    rng0 = random.Random(seed + 1)
+    nimg0 = 150 if tier == "quick" else 1500
+    imgs = [{"image": ic.random_image(rng0, biased=(i % 5 != 0), n=rng0.choice([60, 120, 230])), "ss": rng0.choice([0, 16, 32, 48, 64]),
+             "keyevery": rng0.choice([0, 0, 3, 7])} for i in range(nimg0)]
+    ipath = os.path.join(vlib.WORK, "seq_images.ndjson")
+    vlib.write_ndjson(ipath, imgs)
+    sq = vlib.tlc(os.path.join(vlib.SPEC, "mc", "MC_IsaSeq.tla"), os.path.join(vlib.SPEC, "mc", "MC_IsaSeq.cfg"), env={"IMAGES": ipath},
+                  extra=["-continue"], timeout=7200, xmx="16g", name="isa-seq")
+    states += sq.distinct
+    trans += sq.generated
+    per_suite["sequences"] = {"states": sq.distinct, "images": nimg0}
+    for line in sq.out.splitlines():
+        if "SEQMISMATCH" in line:
+            v.violation("isa:seq", "on an instruction sequence Micro(Rom of the tree) does not refine Isa.tla / the ISA cost: %s "
+                        "(image index, boundary number, PC, opcode, edges, ISA cost, ISA state)" % line[:200], {"line": line, "images": ipath})
+            break
     # whole-domain binding of the pure pieces EdgeF is built from (exact function equality)
     t = vlib.tlc(os.path.join(vlib.SPEC, "mc", "MC_CtlTables.tla"), os.path.join(vlib.SPEC, "mc", "MC_CtlTables.cfg"), timeout=1800)
     dec = [None] * 512
